@@ -98,7 +98,10 @@ func init() {
 func fieldValues(width int, cur uint64, total, rest int) []uint64 {
 	max := uint64(1)<<(8*uint(width)) - 1
 	vals := []uint64{0, 1, 2, 3, 4, 7, 8, 15, 16, max, max - 1, max / 2, max/2 + 1, cur + 1, cur - 1, cur + 4, cur - 4, cur + 8, cur * 2,
-		uint64(rest), uint64(rest + 1), uint64(rest - 1), uint64(total), uint64(total + 1)}
+		uint64(rest), uint64(rest + 1), uint64(rest - 1), uint64(total), uint64(total + 1),
+		// sizes of common fixed headers and their neighbours (a length field compared with the
+		// wrong header size)
+		5, 6, 12, 14, 19, 20, 21, 23, 24, 28, 32, 36, 39, 40, 41, 44, 48, 56, 60, 64, cur - 8, cur / 2}
 	out := vals[:0]
 	for _, v := range vals {
 		v &= max
